@@ -86,6 +86,15 @@ def same_mod(exp, got, numeric=False, char1=False, tol=1e-9):
     char1 = a character and a one-character string are identified."""
     e, g = exp, got
     if char1:
+        # a list made only of characters / one-character strings and the string of those characters are identified too
+        def aslist(v):
+            if v["t"] == "l" and not v["v"]:
+                return {"t": "s", "v": []}
+            if v["t"] == "l" and v["v"] and all(x["t"] == "c" or (x["t"] == "s" and len(x["v"]) == 1) for x in v["v"]):
+                return {"t": "s", "v": [x["v"] if x["t"] == "c" else x["v"][0] for x in v["v"]]}
+            return v
+        e, g = aslist(e), aslist(g)
+    if char1:
         if e["t"] == "c":
             e = {"t": "s", "v": [e["v"]]}
         if g["t"] == "c":
